@@ -64,7 +64,21 @@ ProgModules ==
     v1 \in {CInt, CRef("b", "x"), CRef("", "x")}, c2 \in { [k |-> "no"], [k |-> "co", ty |-> BaseRef("i32"), val |-> CInt] },
     p1 \in {NoRef, Qual("b", "P"), Bare("P")}, p2 \in {NoRef, Qual("a", "P")} }
 
+\* ---- family "modsvcs": services inheriting across two files.  The included parent has a parent of its own that it
+\*      names without qualification, and the including file may define a service of that name: a parent must be linked
+\*      in the scope of its own file, whoever asks for it first
+Sv(par) == [k |-> "sv", par |-> par]
+ProgModSvcs ==
+  { [inc |-> i, ty |-> EmptyTy, co |-> EmptyCo,
+     sv |-> (Key("a", "P") :> pa) @@ (Key("a", "Q") :> qa) @@ (Key("b", "P") :> pb) @@ (Key("b", "Q") :> qb)] :
+    i \in { [a |-> {"b"}, b |-> {}], [a |-> {"b"}, b |-> {"a"}] },
+    pa \in { Sv(Qual("b", "P")), Sv(Qual("b", "Q")), Sv(Bare("Q")) },
+    qa \in { [k |-> "no"], Sv(NoRef), Sv(Qual("b", "P")) },
+    pb \in { Sv(NoRef), Sv(Bare("Q")), Sv(Qual("a", "Q")) },
+    qb \in { [k |-> "no"], Sv(NoRef), Sv(Bare("P")) } }
+
 Programs == CASE Family = "types"   -> ProgTypes
+              [] Family = "modsvcs" -> ProgModSvcs
               [] Family = "consts"  -> ProgConsts
               [] Family = "svcs"    -> ProgSvcs
               [] Family = "mixed"   -> ProgMixed
